@@ -502,3 +502,6 @@ def check(facts, rep, tier, cfg):
                 rep.ok("C17.R8", key, where, "connector <- make_client_config(arguments of this call)")
     if "client" in crate.features or "default" in crate.features:
         rep.floor("C17.R8", "client TLS handshake sites", k8, 1)
+    rep.rule("C17.S7", "who-may: the functions that touch the critical resources behind this property are those of the reference tree (flow table, closed flag, per-stream / datagram / outbound queues, last-pong timestamp, client id maps, shared TLS identity)")
+    import whomay
+    whomay.check(facts, rep, "C17.S7", "C17")
